@@ -55,9 +55,24 @@ CHECKS.update({
          'unsplit text for all operand values and origins; scopes/zones across includes shared with C06/C05 models; rejection catalogue', '6 C17',
          'split points enumerated; the reference layout of the unsplit text defines "pasted in place"'),
 })
+CHECKS.update({
+ 'C14': ('PIPE: every symbolic path of program families with zero-length directives in every position, symbolic fill counts and '
+         'single-fault corruptions; z3-guided exploration decides per path: failure => output never opened, success => opened once; '
+         'a path exhausting its decision budget is replayed against the real CLI under a time limit', '6 C14',
+         'termination claimed per explored path (decision budget 4000); corruption catalogue enumerated'),
+ 'C16': ('PIPE with pretty printing: symbolic bytes/addresses are rendered as opaque width-preserving tokens that decode back to z3 '
+         'terms; z3 decides decoded address->byte map of listing / minhex / hex / intel_hex == image map for all data values and origins', '6 C16',
+         'programs enumerated; byte->hex-digit rendering and the third-party intelhex writer are outside the symbolic claim (decoded concretely on replay)'),
+ 'C19': ('whole model load with min_version = a.b.c[b1] symbolic (version parser stubbed to symbolic tuples) + UNIT RequiredLanguageLine for '
+         'all five operators + numeric well-formedness with symbolic values; z3 decides rejected <=> stated condition; corruption catalogue', '6 C19',
+         'packaging.version parsing trusted; a text comparison of versions is forked over a catalogue of version texts; corruptions enumerated'),
+ 'C20': ('STR: the real generators run on a vocabulary catalogue; each emitted classification pattern is translated to a z3 regular '
+         'expression; z3 decides that no identifier (symbolic string, length <= 12) outside the vocabulary is classified; files parsed for well-formedness', '6 C20',
+         'regex subset (literals, |, groups, (?i), \\b, ., escapes, 1-char look-behind); Python re replays counterexamples in place of Oniguruma'),
+})
 NA = {
 }
-PENDING = ['C14','C16','C19','C20']
+PENDING = []
 NA_FIXED = {
  'C09': 'quantifier is over names/line text handled by re.findall + str.replace on concrete strings; Python re cannot run on symbolic strings and an SMT-string re-model would not be the real code (DESIGN 7)',
  'C15': 'variation enters through interpreter hash randomisation and the OS environment - process parameters, not inputs of any function the symbolic executor can run (DESIGN 7)',
